@@ -40,6 +40,15 @@ func (c *Ctx) Emit(op string, impl string) {
 	fmt.Fprintf(c.out, "%s\t%s\n", op, impl)
 }
 
+// EmitSite is Emit with an explicit site label: a disagreement on this case is reported (and
+// matched against known_findings.jsonl) under that site instead of "corr:<first two op tokens>".
+func (c *Ctx) EmitSite(op string, impl string, site string) {
+	if strings.ContainsAny(op, "\t\n") || strings.ContainsAny(impl, "\t\n") || strings.ContainsAny(site, "\t\n") {
+		panic("tab/newline in protocol line")
+	}
+	fmt.Fprintf(c.out, "%s\t%s\t%s\n", op, impl, site)
+}
+
 // PropFail reports that the property predicate itself failed on the implementation.
 func (c *Ctx) PropFail(site string, desc string) {
 	fmt.Fprintf(c.out, "#propfail %s %s\n", site, strings.ReplaceAll(desc, "\n", " "))
